@@ -246,4 +246,159 @@ Lemma max_frame_pn T : max_frame node nd_fr (map pn T) = max_frame node nd_fr T.
 Proof.
   unfold max_frame. generalize 0. induction T as [|n t IH]; intros m; cbn [map fold_left]; [reflexivity|]. apply IH.
 Qed.
+
+(* ---------- acceptance ---------- *)
+Lemma ltb_pos c : Nat.ltb (pos c) nv = Nat.ltb c nv.
+Proof. apply eq_true_iff_eq. rewrite !Nat.ltb_lt. apply (pos_lt_iff nv ord Hperm). Qed.
+
+Lemma ev_wf_b_pn T e : crs_ok T -> (ecr (fe e) < nv)%nat -> ev_wf_b (map pn T) (pe e) = ev_wf_b T e.
+Proof.
+  intros HT He. unfold ev_wf_b. cbn [pe fe eseq ecr].
+  change (self_parent {| eid := eid (fe e); ecr := pos (ecr (fe e)); eseq := eseq (fe e); epar := epar (fe e) |}) with (self_parent (fe e)).
+  f_equal. destruct (1 <? eseq (fe e)); [|reflexivity]. destruct (self_parent (fe e)) as [sp|]; [|reflexivity].
+  rewrite nlookup_pn. destruct (nlookup sp T) as [n|] eqn:L; [|reflexivity]. cbn [option_map pn nd_cr nd_seq]. f_equal.
+  apply nlookup_some in L as [Hn _].
+  apply eq_true_iff_eq. rewrite !Nat.eqb_eq. split; [apply (pos_inj nv ord Hperm); [apply HT; exact Hn | exact He] | intros ->; reflexivity].
+Qed.
+
+Lemma add_event_pn T e : crs_ok T ->
+  add_event vals' (map pn T) (pe e) = (map pn (fst (add_event vals T e)), snd (add_event vals T e)) /\
+  crs_ok (fst (add_event vals T e)).
+Proof.
+  intros HT. unfold add_event. rewrite vals'_len. cbn [pe fe eid ecr epar].
+  assert (E1 : existsb (fun p => match nlookup p (map pn T) with None => true | Some _ => false end) (epar (fe e))
+             = existsb (fun p => match nlookup p T with None => true | Some _ => false end) (epar (fe e))).
+  { apply existsb_ext_in. intros p _. rewrite nlookup_pn. destruct (nlookup p T); reflexivity. }
+  rewrite E1, nlookup_pn, ltb_pos.
+  assert (E2 : match option_map pn (nlookup (eid (fe e)) T) with Some _ => true | None => false end
+             = match nlookup (eid (fe e)) T with Some _ => true | None => false end) by (destruct (nlookup (eid (fe e)) T); reflexivity).
+  rewrite E2.
+  destruct (existsb _ (epar (fe e)) || _ || negb (Nat.ltb (ecr (fe e)) nv)) eqn:C1; cbn [fst snd]; [split; [reflexivity | exact HT]|].
+  assert (He : (ecr (fe e) < nv)%nat).
+  { apply orb_false_iff in C1 as [_ C1]. apply negb_false_iff in C1. apply Nat.ltb_lt. exact C1. }
+  change {| fe := {| eid := eid (fe e); ecr := pos (ecr (fe e)); eseq := eseq (fe e); epar := epar (fe e) |}; ffr := ffr e |} with (pe e).
+  rewrite (ev_wf_b_pn T e HT He).
+  destruct (negb (ev_wf_b T e)); cbn [fst snd]; [split; [reflexivity | exact HT]|].
+  rewrite (mk_node_pn T e HT He), (frame_ok_pn T _ HT), (frame_high_pn T _ HT).
+  destruct (r_frame_ok vals T (mk_node nv T e)); cbn [fst snd map]; (split; [reflexivity|]); [|exact HT].
+  intros n [<-|Hn]; [exact He | apply HT; exact Hn].
+Qed.
+
+Lemma add_events_pn D : forall T, crs_ok T ->
+  add_events vals' (map pn T) (map pe D) = (map pn (fst (add_events vals T D)), snd (add_events vals T D)) /\
+  crs_ok (fst (add_events vals T D)).
+Proof.
+  induction D as [|e D IH]; intros T HT; cbn [map add_events fst snd]; [split; [reflexivity | exact HT]|].
+  destruct (add_event_pn T e HT) as [E1 HT1]. rewrite E1.
+  destruct (add_event vals T e) as [T1 r]. cbn [fst snd] in *.
+  destruct (IH T1 HT1) as [E2 HT2]. rewrite E2. destruct (add_events vals T1 D) as [T2 rs]. cbn [fst snd] in *. auto.
+Qed.
+
+(* ---------- forkers ---------- *)
+Lemma forker_pn T j : crs_ok T -> (j < nv)%nat -> forker (map pn T) j = forker T (unpos j).
+Proof.
+  intros HT Hj. unfold forker. rewrite existsb_map. apply existsb_ext_in. intros x Hx.
+  rewrite existsb_map. apply existsb_ext_in. intros y Hy. cbn [pn nd_cr nd_id nd_seq].
+  rewrite (pos_eqb _ j (HT x Hx) Hj), (pos_eqb _ j (HT y Hy) Hj). reflexivity.
+Qed.
+Lemma few_forkers_pn T : crs_ok T -> few_forkers vals T -> few_forkers vals' (map pn T).
+Proof.
+  intros HT H. unfold few_forkers in *.
+  rewrite (wsP_same (forker T) (forker (map pn T)) (fun j Hj => forker_pn T j HT Hj)).
+  unfold totalW. rewrite (wsP_same (fun _ => true) (fun _ => true) (fun _ _ => eq_refl)). exact H.
+Qed.
+
+(* ---------- decisions, blocks, cheaters ---------- *)
+Hypothesis Hcanon : canon_order vals' = seq 0 nv.
+
+Lemma map_pos_ord : map pos ord = seq 0 nv.
+Proof.
+  assert (H : map pos (map unpos (seq 0 nv)) = seq 0 nv).
+  { rewrite map_map. rewrite <- (map_id (seq 0 nv)) at 2.
+    apply map_ext_in. intros j Hj. apply in_seq in Hj. apply (pos_unpos nv ord Hperm). lia. }
+  rewrite (map_unpos_seq nv ord Hperm) in H. exact H.
+Qed.
+
+Notation decide0 T f := (decide node nd_id nd_cr nd_fr nd_spf fcn ws q (canon_order vals) T f (max_frame node nd_fr T)).
+Notation decide1 T f := (decide node nd_id nd_cr nd_fr nd_spf fcn' ws' q' (canon_order vals') T f (max_frame node nd_fr T)).
+
+Lemma decide_pn T f a : crs_ok T -> wfT vals T -> few_forkers vals T -> wfT vals' (map pn T) -> few_forkers vals' (map pn T) ->
+  (decide1 (map pn T) f = Atropos a <-> decide0 T f = Atropos a).
+Proof.
+  intros HT W Hff W' Hff'.
+  rewrite (ref_decide_iff vals T W Hff f a), (ref_decide_iff vals' (map pn T) W' Hff' f a), Hcanon.
+  assert (Hord : forall u, In u ord -> (u < nv)%nat) by (intros u; apply (ord_in nv ord Hperm)).
+  split.
+  - intros (pre' & v' & post' & x' & Eo & P & [kv [rv Dv]] & Vx & Ex).
+    assert (Hin : forall u', In u' (pre' ++ v' :: post') -> (u' < nv)%nat) by (intros u' Hu'; rewrite <- Eo in Hu'; apply in_seq in Hu'; lia).
+    assert (Hv' : (v' < nv)%nat) by (apply Hin; apply in_or_app; right; left; reflexivity).
+    rewrite (voted_root_pn T f v' HT Hv') in Vx.
+    destruct (voted_root node nd_cr nd_fr nd_spf fcn T f (unpos v')) as [x|] eqn:Vx0; [|discriminate]. inversion Vx; subst x'.
+    exists (map unpos pre'), (unpos v'), (map unpos post'), x. split.
+    { transitivity (map unpos (seq 0 nv)); [symmetry; apply (map_unpos_seq nv ord Hperm) | rewrite Eo, map_app; reflexivity]. }
+    split; [|split; [|auto]].
+    + intros u Hu. apply in_map_iff in Hu as [u' [<- Hu']]. destruct (P u' Hu') as [k [r D]].
+      destruct (decides_down T f k r u' false HT (Hin u' (in_or_app _ _ _ (or_introl Hu'))) D) as [r0 [_ D0]]. eauto.
+    + destruct (decides_down T f kv rv v' true HT Hv' Dv) as [r0 [_ D0]]. eauto.
+  - intros (pre & v & post & x & Eo & P & [kv [rv Dv]] & Vx & Ex).
+    assert (Hin : forall u, In u (pre ++ v :: post) -> (u < nv)%nat) by (intros u Hu; rewrite <- Eo in Hu; apply Hord; exact Hu).
+    assert (Hv : (v < nv)%nat) by (apply Hin; apply in_or_app; right; left; reflexivity).
+    exists (map pos pre), (pos v), (map pos post), (pn x). split.
+    { transitivity (map pos ord); [symmetry; apply map_pos_ord | rewrite Eo, map_app; reflexivity]. }
+    split; [|split; [|split; [|exact Ex]]].
+    + intros u' Hu'. apply in_map_iff in Hu' as [u [<- Hu]]. destruct (P u Hu) as [k [r D]].
+      exists k, (pn r). apply decides_up; [exact HT | apply Hin; apply in_or_app; left; exact Hu | exact D].
+    + exists kv, (pn rv). apply decides_up; assumption.
+    + rewrite (voted_root_pn T f (pos v) HT (pos_lt nv ord Hperm v Hv)), (unpos_pos nv ord Hperm v Hv), Vx. reflexivity.
+Qed.
+
+Lemma blocks_pn T : crs_ok T -> wfT vals T -> few_forkers vals T -> wfT vals' (map pn T) -> few_forkers vals' (map pn T) ->
+  r_blocks vals' (map pn T) = r_blocks vals T.
+Proof.
+  intros HT W Hff W' Hff'. unfold r_blocks, blocks_spec. rewrite max_frame_pn.
+  generalize (N.to_nat (max_frame node nd_fr T)). intros fuel. generalize 1.
+  induction fuel as [|fu IH]; intros f; cbn [blocks_from]; [reflexivity|]. rewrite max_frame_pn.
+  pose proof (fun a => decide_pn T f a HT W Hff W' Hff') as H. rewrite max_frame_pn in H.
+  destruct (decide0 T f) as [|a0| |] eqn:E0.
+  - destruct (decide node nd_id nd_cr nd_fr nd_spf fcn' ws' q' (canon_order vals') (map pn T) f (max_frame node nd_fr T)) as [|a1| |] eqn:E1; try reflexivity.
+    pose proof (proj1 (H a1) eq_refl). discriminate.
+  - rewrite (proj2 (H a0) eq_refl). f_equal. apply IH.
+  - destruct (decide node nd_id nd_cr nd_fr nd_spf fcn' ws' q' (canon_order vals') (map pn T) f (max_frame node nd_fr T)) as [|a1| |] eqn:E1; try reflexivity.
+    pose proof (proj1 (H a1) eq_refl). discriminate.
+  - destruct (decide node nd_id nd_cr nd_fr nd_spf fcn' ws' q' (canon_order vals') (map pn T) f (max_frame node nd_fr T)) as [|a1| |] eqn:E1; try reflexivity.
+    pose proof (proj1 (H a1) eq_refl). discriminate.
+Qed.
+
+Lemma vid_vals' j : (j < nv)%nat -> fst (nth j vals' (0, 0)) = fst (nth (unpos j) vals (0, 0)).
+Proof.
+  intros Hj. unfold vals'. rewrite (nth_indep _ (0, 0) (nth 0%nat vals (0, 0))) by (rewrite map_length, (ord_len nv ord Hperm); exact Hj).
+  rewrite (map_nth (fun i => nth i vals (0, 0))). reflexivity.
+Qed.
+Lemma cheaters_pn T a : ElectionSpec.cheaters_of vals' (map pn T) a = ElectionSpec.cheaters_of vals T a.
+Proof.
+  unfold ElectionSpec.cheaters_of. rewrite nlookup_pn. destruct (nlookup a T) as [n|]; [|reflexivity]. cbn [option_map].
+  rewrite Hcanon.
+  replace (filter (sees_fork_n n) ord) with (filter (sees_fork_n n) (map unpos (seq 0 nv))) by (f_equal; apply (map_unpos_seq nv ord Hperm)).
+  rewrite filter_map_comm, map_map.
+  rewrite (filter_ext_in (sees_fork_n (pn n)) (fun j => sees_fork_n n (unpos j))).
+  2:{ intros j Hj. apply in_seq in Hj. apply sf_pn. lia. }
+  apply map_ext_in. intros j Hj. apply filter_In in Hj as [Hj _]. apply in_seq in Hj. apply vid_vals'. lia.
+Qed.
+
+(* ---------- the reference ---------- *)
+Theorem reference_pn D : valid_run vals D ->
+  valid_run vals' (map pe D) /\ reference vals' (map pe D) = reference vals D.
+Proof.
+  intros [Hacc Hff]. unfold all_accepted, table in *.
+  assert (HT0 : crs_ok []) by (intros n []).
+  destruct (add_events_pn D [] HT0) as [E HT]. cbn [map] in E.
+  assert (Hacc' : all_accepted vals' (map pe D)) by (unfold all_accepted; rewrite E; exact Hacc).
+  assert (Hff' : few_forkers vals' (table vals' (map pe D))) by (unfold table; rewrite E; cbn [fst]; apply few_forkers_pn; assumption).
+  split; [split; assumption|].
+  pose proof (wfTD_wfT vals _ _ (table_wfTD vals D Hacc)) as W.
+  pose proof (wfTD_wfT vals' _ _ (table_wfTD vals' (map pe D) Hacc')) as W'.
+  unfold table in W, W', Hff'. rewrite E in W', Hff'. cbn [fst] in W', Hff'.
+  unfold reference. rewrite E. destruct (add_events vals [] D) as [T rs]. cbn [fst snd] in *. f_equal.
+  rewrite (blocks_pn T HT W Hff W' Hff'). apply map_ext. intros b. rewrite cheaters_pn. reflexivity.
+Qed.
 End Equiv.
